@@ -1,6 +1,6 @@
 From Coq Require Import Extraction ExtrOcamlBasic.
 From Shisui Require Import Base.Bytes Gen.K_handlers Model.Handlers Model.Gossip.
 Extraction Language OCaml.
-Extraction "c20_model.ml" process_event cache_get gossip_select gossip_filter gossip_offers find_nodes_close pick_sorted pick_perm
+Extraction "c20_model.ml" process_event process_add_enr pong_of_ping max_distance cache_get gossip_select gossip_filter gossip_offers find_nodes_close pick_sorted pick_perm
   covered_b in_range logdist rec_eqb last_reported sorted_by_b gossip_candidates
   K_ext_history K_ext_state K_ext_beacon K_ext_default.
